@@ -6,6 +6,7 @@ F-struct(n) and the F-type shapes; five entry points; oracle = reference walker.
 from mc import terms as T, ref, gen
 from mc.enc import fresh
 from mc.run import Result
+from mc.snapshot import vsnap
 
 from valida.data import Data
 from valida.datapath import DataPath
@@ -125,6 +126,7 @@ def check_case(res, p, doc, key):
     res.state(*key)
     case = {"path": p, "doc": doc}
     d = fresh(doc)
+    before = vsnap(d)
     sel = ref.walk(p, d)
     conc = ref.is_concrete(p)
     parts = p[1]
@@ -148,6 +150,10 @@ def check_case(res, p, doc, key):
         identity = not (not parts)
         if not compare(res, got, sel, conc, p, doc, case, entry, identity=identity):
             return
+    if vsnap(d) != before:   # (C08's side condition, checked everywhere it is cheap)
+        res.violation("document-changed:%s" % shape(p), "resolving %s changed the document %r -> %r" % (T.show(p), doc, d), case,
+                      observed=d, expected=doc)
+        return
     res.count("validated")
     if sel:
         res.count("nontrivial")
